@@ -75,55 +75,82 @@ Definition comment_end_ok (e : str) : bool :=
                     | Some i => i =? lenZ (body_comment ++ mark_str m)
                     | None => false
                     end) [MNone; MMinus; MPlus].
-(* a start delimiter occurs inside another one only as its prefix (`<%` in `<%=`), never further right *)
-Fixpoint occurs_after_first (p q : str) : bool :=     (* p occurs in q at a position > 0 *)
+(* a start delimiter occurs inside another one only as a prefix or a suffix (`<%` in `<%=`, `<<` in `<<<`,
+   `#` in `{#`), never ending strictly inside it; a line statement prefix may, when the character before
+   it rules out the start of a line (`%` in `<%=`) *)
+Definition blank_or_nl (c : Z) : bool := (c =? c_space) || (c =? c_tab) || (c =? c_cr) || (c =? c_lf).
+Fixpoint occurs_inside (exempt_line : bool) (p : str) (before : Z) (q : str) : bool :=
   match q with
   | [] => false
-  | _ :: r => (negb (is_nil r) && prefix_of p r) || occurs_after_first p r
+  | a :: r => (prefix_of p r && (lenZ p <? lenZ r) && (negb exempt_line || blank_or_nl a)) || occurs_inside exempt_line p a r
   end.
 Definition infix_free (d : delims) : bool :=
-  forallb (fun p => forallb (fun q => negb (occurs_after_first (fst p) (fst q))) (patterns d)) (patterns d).
+  forallb (fun p => forallb (fun q => negb (occurs_inside (match snd p with MkLineStmt => true | _ => false end) (fst p) 0 (fst q)))
+                            (patterns d)) (patterns d).
+
+Definition start_delim_ok (p : str) : bool := match p with c :: _ => negb (is_ws c) | [] => false end.
 
 Definition wf_delims (d : delims) : bool :=
   valid_config fixed d && end_delim_ok (block_e d) && end_delim_ok (var_e d) && end_delim_ok (com_e d)
-  && comment_end_ok (com_e d) && infix_free d.
+  && comment_end_ok (com_e d) && infix_free d && forallb (fun pm => start_delim_ok (fst pm)) (patterns d).
 
 (* the start delimiter [s] of a tag, followed by [following], is not the beginning of a longer one *)
 Definition not_extended (d : delims) (s following : str) : bool :=
   forallb (fun pm => negb (prefix_of (fst pm) (s ++ following)) || (lenZ (fst pm) <=? lenZ s)) (patterns d).
 
-Definition ends_with_nl_or_empty_line (bol : bool) (t : str) : bool := at_line_start bol t.
+(* the recogniser of line statements accepts only spaces and tabs as indentation *)
+Definition is_blank (c : Z) : bool := (c =? c_space) || (c =? c_tab).
+Definition at_line_start_simple (bol : bool) (t : str) : bool :=
+  match rev (rstrip is_blank t) with
+  | [] => bol
+  | c :: _ => is_nl c
+  end.
 
-(* [bol]: is the position before the first segment at the start of a line (blanks aside)?
-   [after_text]: was the previous segment a text (two texts in a row are not allowed)? *)
+(* raw content: a block start inside it does not begin an endraw tag and does not run over into the real one *)
+Definition is_none {A} (o : option A) : bool := match o with None => true | Some _ => false end.
+Fixpoint raw_content_ok (d : delims) (c following : str) : bool :=
+  match c with
+  | [] => true
+  | _ :: r =>
+      (if prefix_of (block_s d) (c ++ following)
+       then is_none (skip_basic_tag (skipZ (lenZ (block_s d)) (c ++ following)) s_endraw (block_e d) true)
+            && (lenZ (block_s d) <=? lenZ c)
+       else true)
+      && raw_content_ok d r following
+  end.
+
+Definition tag_start (d : delims) (k : tagkind) : str :=
+  match k with KVar => var_s d | KBlock => block_s d | KComment => com_s d end.
+Definition line_start (d : delims) (k : linekind) : str := match k with LStmt => line_s d | LComment => line_c d end.
+
+(* [bol]: is the position before the first segment at the start of a line (spaces and tabs aside)?
+   [after_text]: was the previous segment a text (two texts in a row are not allowed, nor are empty texts)? *)
 Fixpoint wf_segs (d : delims) (bol after_text : bool) (segs : list seg) : bool :=
   match segs with
   | [] => true
   | Text t :: r =>
-      negb after_text && no_start_in d t (unparse d r) && wf_segs d (at_line_start bol t) true r
+      negb after_text && negb (is_nil t) && no_start_in d t (unparse d r) && wf_segs d (at_line_start_simple bol t) true r
   | Tag k l m :: r =>
-      not_extended d (match k with KVar => var_s d | KBlock => block_s d | KComment => com_s d end)
-                   (skipZ (lenZ (match k with KVar => var_s d | KBlock => block_s d | KComment => com_s d end))
-                          (unparse d (Tag k l m :: r)))
+      not_extended d (tag_start d k) (skipZ (lenZ (tag_start d k)) (unparse d (Tag k l m :: r)))
       && wf_segs d false false r
   | Raw l1 r1 c l2 r2 :: r =>
       not_extended d (block_s d) (skipZ (lenZ (block_s d)) (unparse d (Raw l1 r1 c l2 r2 :: r)))
-      && no_start_in {| block_s := block_s d; block_e := block_e d; var_s := block_s d; var_e := var_e d;
-                        com_s := block_s d; com_e := com_e d; line_s := []; line_c := [] |}
-                     c (raw_close_src d l2 r2)
+      && raw_content_ok d c (raw_close_src d l2 r2 ++ unparse d r)
       && wf_segs d false false r
   | Line k t nl :: r =>
-      negb (is_nil (match k with LStmt => line_s d | LComment => line_c d end))
+      negb (is_nil (line_start d k))
       && match k with LStmt => bol | LComment => true end
-      && forallb is_hws t
+      && forallb is_blank t
       && match nl with
          | NlNone => is_nil r
          | NlCR => match unparse d r with c :: _ => negb (c =? c_lf) | [] => true end
          | _ => true
          end
-      && not_extended d (match k with LStmt => line_s d | LComment => line_c d end)
-                      (skipZ (lenZ (match k with LStmt => line_s d | LComment => line_c d end)) (unparse d (Line k t nl :: r)))
+      && not_extended d (line_start d k) (skipZ (lenZ (line_start d k)) (unparse d (Line k t nl :: r)))
       && wf_segs d (match nl with NlNone => false | _ => true end) false r
   end.
 
-Definition wf_case (d : delims) (segs : list seg) : bool := wf_delims d && wf_segs d true false segs.
+(* the domain of theorem texts_verbatim: well-formed delimiters, well-formed segments, and -- when the trailing
+   newline is removed -- well-formed segments after its removal *)
+Definition wf_case (d : delims) (keep_nl : bool) (segs : list seg) : bool :=
+  wf_delims d && wf_segs d true false segs && (keep_nl || wf_segs d true false (clip_segs segs)).
